@@ -429,7 +429,8 @@ def gaps_of(rows: dict) -> dict:
             if p in ("self", "x", "a", "b", "x1", "x2", "arrays", "operands", "array", "obj", "args", "kwargs", "condition", "y", "other", "func", "matrix", "filename", "cls"):
                 continue
             classes = set(union(vc, "p:" + p))
-            classes.discard("<array>")
+            if "<array>" in classes or any(c.startswith("<arrays") for c in classes):
+                continue  # an array-valued parameter: its variation is the formats/dtypes/fills columns
             if len(classes) <= 1:
                 g["params_never_varied"].append({"op": op, "label": r["label"], "owner": r["owner"], "param": p, "seen": sorted(classes)})
     return g
